@@ -30,6 +30,13 @@ pub trait CoordNum: Copy + PartialEq + PartialOrd {
             a.eq_spec(&b) == (a.val() == b.val()),
             a.partial_cmp_spec(&b) == Some(int_cmp(a.val(), b.val())),
     ;
+    /// quantified form of ax_cmp (same assumption; instantiated by the comparison terms of the verification
+    /// condition, so a proof does not depend on which operand order or operator the code happens to use)
+    proof fn ax_order()
+        ensures
+            forall|a: Self, b: Self| #![trigger a.partial_cmp_spec(&b)] a.partial_cmp_spec(&b) == Some(int_cmp(a.val(), b.val())),
+            forall|a: Self, b: Self| #![trigger a.eq_spec(&b)] a.eq_spec(&b) == (a.val() == b.val()),
+    ;
 }
 
 } // verus!
